@@ -116,7 +116,9 @@ pub fn sequence(a: &Value) -> Value {
 /// whole-value parsing: parse::<Vec<Value>> / one::<Value> agree with a plain parse; absent params behave as null
 pub fn whole(a: &Value) -> Value {
     if a["battery"].as_bool() == Some(true) {
-        let texts = [Some("[1]"), None, Some("{\"a\":1}"), Some("[ ]"), Some("[]"), Some("[1,2]"), Some("[\"x\"]"), Some("[null]"), Some("[[1,2],{\"k\":[3]}]"), Some("7"), Some("null")];
+        let texts = [Some("[1]"), None, Some("{\"a\":1}"), Some("[ ]"), Some("[]"), Some("[1,2]"), Some("[\"x\"]"), Some("[null]"), Some("[[1,2],{\"k\":[3]}]"), Some("7"), Some("null"),
+                     // text after the first complete value, unbalanced brackets, leading / trailing whitespace
+                     Some("[1, 2] [3]"), Some("[7]]"), Some("null null"), Some("{\"a\": 1}}"), Some("[1],"), Some("  [1]  "), Some("[1"), Some(""), Some("[1] x")];
         let mut why = vec![];
         for t in texts {
             let r = whole(&json!({"text": t}));
